@@ -40,6 +40,36 @@ bool prop(Tape &t, Report &R) {
     R.discard("no movable cell");
     return true;
   }
+  // A shape on which the single-precision solver is known to return non-finite coordinates (the
+  // reproducer of the recorded C06/C07 finding): unit rows far from the origin, unit cells, one
+  // net without a fixed pin.  The class is judged in a forked child below; what matters here is
+  // that nothing but movable positions changes even then.  Chosen by the last word of the tape.
+  {
+    uint32_t lw = t.w.empty() ? 0 : t.w.back();
+    if (flow == 0 && (lw >> 12) % 16 == 3) {
+      static const int far[][2] = {{-4194271, -4194271}, {2317303, -350143}, {4194000, 0}, {0, -4194000}};
+      int k = (int)((lw >> 16) % 4);
+      int ox = far[k][0], oy = far[k][1];
+      CircuitSpec f;
+      f.rowHeight = 1;
+      int nr = 1 + (int)((lw >> 18) % 6), rw = 4 + (int)((lw >> 21) % 8), nc = 2 + (int)((lw >> 24) % 4);
+      for (int r = 0; r < nr; ++r) f.rows.emplace_back(ox, ox + rw, oy + r, oy + r + 1, r % 2 ? CellOrientation::FS : CellOrientation::N);
+      for (int i = 0; i < nc; ++i) {
+        CellSpec c;
+        c.w = c.h = 1, c.x = ox, c.y = oy;
+        f.cells.push_back(c);
+      }
+      NetSpec net;
+      net.cells = {0, 1}, net.xo = {0, 0}, net.yo = {0, 0};
+      f.nets.push_back(net);
+      f.labels = s.labels;
+      f.labels.insert("shape:far-unanchored-unit-cells");
+      s = f;
+      params = ColoquinteParameters(3, 0);
+      params.global.maxNbSteps = 30;
+      rejected = false;
+    }
+  }
   bool knownClass = false;
   if (usesGlobal) {
     // known finding #17 (C06/C07): on the unchanged tree this class ends in a
